@@ -39,7 +39,7 @@ def vkey(x):
   if isinstance(x, bytes):
     return 'y:' + x.hex()
   if isinstance(x, (tuple, list)):
-    return type(x).__name__[0] + ':[' + ','.join(vkey(i) for i in x) + ']'
+    return 'l:[' + ','.join(vkey(i) for i in x) + ']'    # ChoiceListColumn.set stores lists as tuples
   try:
     return 'o:%s:%s' % (type(x).__name__, json.dumps(G.norm(objtypes.encode_object(x)), sort_keys=True, default=repr))
   except Exception:
@@ -93,7 +93,8 @@ class Enc(object):
                         sc.reverseColId if sc is not None else None)
 
   def gmap(self, items, vtype):
-    return '(list_to_map %s : gmap Z %s)' % (core.coq_list(['(%s, %s)' % (core.zlit(k), v) for k, v in items]), vtype)
+    # sorted by key: two encodings of equal maps are equal strings (dict order of the engine is not part of the state)
+    return '(mkmap %s %s)' % (vtype, core.coq_list(['(%s, %s)' % (core.zlit(k), v) for k, v in sorted(items)]))
 
   def doc(self, e, tables):
     sch_items, tab_items = [], []
@@ -117,7 +118,7 @@ class Enc(object):
             if not objtypes.strict_equal(v, dflt) and vkey(v) != vkey(dflt):
               cells.append((r, core.zlit(self.val(v))))
           cols.append((self.name(c), '(Column %s %s)' % (self.object_colinfo(col, sc), self.gmap(cells, 'val'))))
-        tab_items.append((self.name(t), '(Table (list_to_set %s : gset Z) %s)' % (core.zlist(rows),
+        tab_items.append((self.name(t), '(Table (mkset %s) %s)' % (core.zlist(sorted(rows)),
                                                                                    self.gmap(cols, 'column'))))
     return '(Doc %s %s)' % (self.gmap(sch_items, '(gmap Z colinfo)'), self.gmap(tab_items, 'table'))
 
@@ -219,28 +220,28 @@ class Enc(object):
     if name == 'rebuild':
       return [1]
     if name == 'set':
-      t, c, r, v = detail
+      t, c, r, v, private = detail
       if c == 'id':
         return [2 if v else 3, self.name(t), r]
-      if not self.modelled(e, t, c):
+      if private or c.startswith('#'):
         return None
       return [4, self.name(t), self.name(c), r]
     if name == 'copy':
-      t, c = detail
+      t, c, private = detail
       if c == 'id':
         return [5, self.name(t)]
-      return [6, self.name(t), self.name(c)] if self.modelled(e, t, c) else None
+      return None if (private or c.startswith('#')) else [6, self.name(t), self.name(c)]
     if name == 'clear':
-      t, c = detail
+      t, c, private = detail
       if c == 'id':
         return [7, self.name(t)]
-      return [8, self.name(t), self.name(c)] if self.modelled(e, t, c) else None
+      return None if (private or c.startswith('#')) else [8, self.name(t), self.name(c)]
     if name == 'undo.append':
       return [9] + self.action_sig(detail)
     if name.startswith('sum:'):
       code, nargs = self.SUM_CODE[name[4:]]
       return [10, code] + [self.name(x) for x in detail[:nargs]]
-    if name in ('undo.insert', 'undo.pop'):
+    if name in ('undo.insert', 'undo.pop', 'undo.reappend'):
       return [99]            # not a step of any doc action in the model
     return None
 
@@ -256,4 +257,6 @@ def tables_of_action(name, a):
 
 
 IMPORTS = ['Grist.Model.Rollback']
-EXTRA_DEFS = 'From stdpp Require Import gmap.\nOpen Scope Z_scope.\n'
+EXTRA_DEFS = ('From stdpp Require Import gmap.\nOpen Scope Z_scope.\n'
+              'Definition mkmap (A : Type) (l : list (Z * A)) : gmap Z A := list_to_map l.\n'
+              'Definition mkset (l : list Z) : gset Z := list_to_set l.\n')
